@@ -1,5 +1,44 @@
-import XlVerif.Base
-/-! Driver for C08 (stub: replaced when the property's model is built). -/
+import XlVerif.Model.C08
+import XlVerif.Drv.ValueWire
+/-! Driver for C08.
+  `C08 cast <NUM|TEXT|BOOL|ANY> <py>` → `impl=<S|E:CODE|X:…>`   (`_validate` of one scalar argument)
+  `C08 op <OP> <S> <S>`              → `impl=<result>`           (arithmetic / comparison / POW / CONCAT)
+  `C08 name <text>`                  → `impl=<resolved name>  found=<0|1>`
+-/
 namespace XlVerif.Drv.C08
-def handle (_fields : List String) : String := "error=not-implemented"
+open XlVerif XlVerif.Model.Value XlVerif.Model.Validate XlVerif.Model.C08 XlVerif.Drv.ValueWire
+
+def rWire : R S → String
+  | .ok s => s.wire
+  | .xl c => "E:" ++ c.wire
+  | .py k => "X:" ++ k.wire
+
+def handle (fields : List String) : String :=
+  match fields with
+  | ["cast", t, v] =>
+    (match pyOfWire? v with
+     | some p =>
+       let tt : Option XlT := match t with
+         | "NUM" => some .number | "TEXT" => some .text | "BOOL" => some .boolean | "ANY" => some .anything
+         | _ => none
+       (match tt with
+        | some ty => kv [("impl", rWire (castScalar Ext.none ty p))]
+        | none => "error=bad-type")
+     | none => "error=bad-args")
+  | ["op", o, a, b] =>
+    (match S.ofWire? a, S.ofWire? b with
+     | some x, some y =>
+       (match o, binopOfWire? o with
+        | _, some op => kv [("impl", OpR.wire (binop Ext.none op x y))]
+        | "POW", _ => kv [("impl", OpR.wire (power Ext.none x y))]
+        | "CONCAT", _ => kv [("impl", OpR.wire (concat Ext.none x y))]
+        | _, _ => "error=bad-op")
+     | _, _ => "error=bad-args")
+  | ["name", t] =>
+    (match parseText? t with
+     | some s =>
+       let r := resolveName s
+       kv [("impl", textWire r), ("found", if (findFunc r).isSome then "1" else "0")]
+     | none => "error=bad-args")
+  | _ => "error=bad-request"
 end XlVerif.Drv.C08
